@@ -70,7 +70,7 @@ SYNC_BAD = re.compile(r"thread::spawn|\.await\b|\basync\b|mpsc::|\.send\(|crossb
 
 def facts(src, strip_comments, fn_body):
     out = {"blocked": None, "removed_eval": None, "removed_load": None, "executor": None,
-           "sync": None, "sync_why": "", "quirks": {}, "time_limit": None, "memory_limit": None}
+           "sync": None, "sync_why": "", "quirks": {}, "time_limit": None, "memory_limit": None, "reply_depth_limit": None}
     eng = strip_comments(src("storage/lua_engine.rs"))
     body = fn_body(eng, "execute_unified_redis_command")
     if body is not None:
@@ -201,6 +201,22 @@ def facts(src, strip_comments, fn_body):
             c = m and re.search(r"const\s+" + m.group(1) + r"\s*:\s*(?:std::time::)?Duration\s*=\s*(?:std::time::)?Duration::from_(secs|millis)\(\s*([0-9_]+)\s*\)\s*;", eng)
             if c:
                 out["time_limit"] = int(c.group(2).replace("_", "")) * (1000 if c.group(1) == "secs" else 1)
+    # ---- the nesting depth at which the return-value conversion stops (0 = it recurses without limit)
+    l2r_body = fn_body(eng, "lua_value_to_resp")
+    if l2r_body is not None:
+        m = re.search(r"if\s+depth\s*(>=?)\s*((?:[a-z_]+::)*[A-Z_][A-Z0-9_]*|[0-9_]+)", l2r_body)
+        if not m:
+            out["reply_depth_limit"] = 0 if not re.search(r"\bdepth\b", l2r_body) else None
+        elif m.group(2)[0].isdigit():
+            out["reply_depth_limit"] = int(m.group(2).replace("_", "")) - (1 if m.group(1) == ">=" else 0)
+        else:
+            name = m.group(2).split("::")[-1]
+            where = strip_comments(src("protocol/parser.rs")) if "parser::" in m.group(2) else eng
+            c = re.search(r"const\s+" + name + r"\s*:\s*usize\s*=\s*([0-9_]+)\s*;", where) or \
+                re.search(r"const\s+" + name + r"\s*:\s*usize\s*=\s*([0-9_]+)\s*;", strip_comments(src("protocol/parser.rs")))
+            if c:
+                # the limit is the deepest ACCEPTED depth: `depth > N` accepts N, `depth >= N` accepts N - 1
+                out["reply_depth_limit"] = int(c.group(1).replace("_", "")) - (1 if m.group(1) == ">=" else 0)
     # ---- the bound on a script's memory in bytes, 0 = none: `lua.set_memory_limit(CONST)` on the state scripts run in
     if ev is not None and ctx is not None:
         m = re.search(r"\.\s*set_memory_limit\s*\(\s*([A-Z_][A-Z0-9_]*|[0-9_]+(?:\s*<<\s*[0-9]+)?)\s*\)", ev + ctx)
@@ -260,6 +276,12 @@ def generate(src, strip_comments, fn_body, header):
         L.append("/-- the bound on a script's run time in milliseconds, 0 = none: `LuaEngine::eval` (EVAL and EVALSHA, a fresh Lua state per script)")
         L.append("    installs a count hook (`every_nth_instruction`) that compares `start_time.elapsed()` with a `const ...: Duration` and raises a Lua error -/")
         L.append("def luaScriptTimeLimit : Nat := %d" % f["time_limit"])
+    if f["reply_depth_limit"] is None:
+        L.append('def luaReplyDepthLimit : Nat := extraction_failed "depth test of lua_value_to_resp (src/storage/lua_engine.rs) not recognised"')
+    else:
+        L.append("/-- the largest number of tables around a value that `lua_value_to_resp(value, depth)` still converts (`if depth >= MAX_NESTING` gives up:")
+        L.append("    MAX_NESTING - 1), 0 = it recurses without limit; the constant is resolved in src/protocol/parser.rs -/")
+        L.append("def luaReplyDepthLimit : Nat := %d" % f["reply_depth_limit"])
     if f["memory_limit"] is None:
         L.append('def luaScriptMemoryLimit : Nat := extraction_failed "set_memory_limit in create_lua_context / LuaEngine::eval not recognised"')
     else:
